@@ -341,15 +341,24 @@ class ScnGen:
                     if acc >= first:
                         lo = k + 1
                         break
-            nosend = (ci == 0 and fault in ("hsnone-hs", "hsnone-msg")) or (role == "in" and (first == 0 or acc < first))
+            # (since dc3d515 a send to a peer that is not ready fails cleanly: sometimes send at any time)
+            nosend = False
+            if rng.random() < 0.2:
+                lo = 0
             if ci == 0:
                 nosend0 = nosend
             for (rid, sobj) in ([] if nosend else reqs):
                 pos = rng.randint(lo, len(q))
                 ok = rng.random() > 0.07
-                q.insert(pos, ["send", ci, "q", rid, sobj, rng.choice(["ro0", "ro1"]), rng.choice([0, 0, 30]), ok])
-            if rng.random() < 0.15 and not nosend:
-                q.insert(rng.randint(lo, len(q)), ["send", ci, rng.choice(["o", "p"]), "x%d" % ci, "o0", "ro0", 0, True])
+                pad = rng.choice([0, 0, 30])
+                if maxv < real_max and rng.random() < 0.15:
+                    pad = maxv                     # a request too big to be sent
+                q.insert(pos, ["send", ci, "q", rid, sobj, rng.choice(["ro0", "ro1"]), pad, ok])
+            if rng.random() < 0.25 and not nosend:
+                # a local object answers / signals: replies that cannot be sent are replaced by an error reply
+                pad = maxv if (maxv < real_max and rng.random() < 0.4) else 0
+                q.insert(rng.randint(lo, len(q)), ["send", ci, rng.choice(["o", "p", "p"]), "x%d" % ci, "o0", "ro0", pad,
+                                                   rng.random() > 0.2])
             if ci == 0:
                 if fault == "eof-mid":
                     # the peer goes away in the middle of a frame (or anywhere)
@@ -527,6 +536,7 @@ def _run_steps(M, scn, ctx, run, split_rng):
                 payload = pickle.dumps(mm)
             else:
                 payload = b""
+            info["too_big"] = len(payload) > scn["max"]
             info["unmutated"] = ctx.send(alias, m, payload, ok, ctx.socks.get(ci))
         elif op == "disc":
             ctx.disconnect(aliases.get(st[1], "nowhere"))
@@ -557,7 +567,6 @@ class _RC:
         self.viol = None
         self.outstanding = collections.OrderedDict()
         self.opened = False
-        self.limbo = False        # the violation was a handshake repeated after a handshake that gave no name
 
 
 def _advance(scn, ctx, c, handlers, exp, only_one=False):
@@ -588,8 +597,9 @@ def _advance(scn, ctx, c, handlers, exp, only_one=False):
             c.viol = "notmsg"
         elif cl[0] == "hs":
             if c.hs:
-                c.viol = "hs2" + ("-after-handshake-with-context-name-None" if c.name is None else "")
-                c.limbo = c.name is None
+                c.viol = "hs2"
+            elif not isinstance(cl[1], str):
+                c.viol = "hsname"             # a handshake must say who the peer is
             else:
                 c.hs, c.name = True, cl[1]
                 if cl[3] == (c.role == "in"):
@@ -652,7 +662,6 @@ def oracle(scn, run: Run):
     for a in ctx.arrivals:
         arr_by_step[a[0]].append(a)
     lost_elsewhere = set()
-    crashy = False     # a handler raised an unexpected exception while a connection was being closed
 
     def add(sig, detail):
         if not any(p[0] == sig for p in probs):
@@ -710,12 +719,14 @@ def oracle(scn, run: Run):
             _, _, kind, rid, sobj, dobj, pad, ok = st
             if not info["unmutated"]:
                 add("delivery:sender-mutated-callers-message", "send_message changed the message object it was given")
-            if (not c.opened) or c.dead is not None or not ok:
+            ready = c.opened and c.dead is None and c.hs and isinstance(c.name, str)
+            if (not ready) or (not ok) or info.get("too_big"):
+                # the peer is gone / has not shaken hands yet / the socket fails / the message is too big:
+                # the request fails at once with a delivery error
                 if kind == "q" and sobj in handlers:
                     exp.append(("err", sobj, rid))
-            elif c.hs and isinstance(c.name, str):
-                if kind == "q" and rid not in c.outstanding:
-                    c.outstanding[rid] = sobj
+            elif kind == "q" and rid not in c.outstanding:
+                c.outstanding[rid] = sobj
         elif op == "hadd":
             handlers[st[1]] = st[2]
         elif op == "hdel":
@@ -731,14 +742,8 @@ def oracle(scn, run: Run):
         if k < len(exp) or k < len(got):
             e = exp[k] if k < len(exp) else None
             g = got[k] if k < len(got) else None
-            hint = ""
-            if crashy or any(a[4] == "c" and type(a[2]).__name__ == "QMI_ErrorReplyMessage" for a in got):
-                hint = ":after-handler-exception"
             if e is None:
-                if c is not None and c.limbo:
-                    add("containment:hs2-after-handshake-with-context-name-None:not-disconnected",
-                        "step %d %s: arrival at %s after the repeated handshake" % (si, st[:3], g[1]))
-                elif c is not None and (c.dead is not None):
+                if c is not None and (c.dead is not None):
                     add(pre + "containment:%s:delivered-offending-or-later-message" % (c.viol or c.dead),
                         "step %d %s: unexpected arrival at %s: %s" % (si, st[:3], g[1], g[3][0]))
                 else:
@@ -746,12 +751,9 @@ def oracle(scn, run: Run):
             elif e[0] == "err":
                 if g is not None and type(g[2]).__name__ == "QMI_ErrorReplyMessage" and any(
                         _match(x, g) for x in exp[:k]):
-                    add(pre + "pending:%s:duplicate-error-reply%s" % (losskind or "send", hint), "step %d: %s" % (si, e))
-                elif hint:
-                    add("pending:request-without-error-reply:after-handler-exception-during-close",
-                        "step %d %s (%s): request %s of %s got no error reply" % (si, st[:3], losskind, e[2], e[1]))
+                    add(pre + "pending:%s:duplicate-error-reply" % (losskind or "send"), "step %d: %s" % (si, e))
                 else:
-                    add(pre + "pending:%s:request-without-error-reply" % (losskind or "send-to-lost-peer"),
+                    add(pre + "pending:%s:request-without-error-reply" % (losskind or "unsendable-request"),
                         "step %d %s: request %s of %s got no error reply" % (si, st[:3], e[2], e[1]))
             else:
                 if g is None:
@@ -762,8 +764,6 @@ def oracle(scn, run: Run):
                         "step %d: expected %s got %s" % (si, e[2], g[3]))
                 else:
                     add(pre + "delivery:wrong-message:%s" % cls, "step %d: expected %s at %s, got %s at %s" % (si, e[2][0], e[1], g[3][0], g[1]))
-        if any(a[4] == "c" and type(a[2]).__name__ == "QMI_ErrorReplyMessage" for a in got):
-            crashy = True
         # membership / socket state of every connection after this step
         for cj, cc in enumerate(conns):
             if not cc.opened:
@@ -782,11 +782,7 @@ def oracle(scn, run: Run):
         if c is not None and c.dead is not None:
             lost_elsewhere.add(ci)
     for where, e in ctx.escaped:
-        if (isinstance(e, RuntimeError) and str(e) == "handler crashed") or (
-                crashy and isinstance(e, KeyError) and where == "reader"):
-            add("loop:exception-escaped:handler-exception-during-close", "%s: %r left %s" % (type(e).__name__, str(e), where))
-        else:
-            add("loop:exception-escaped:%s:%s" % (where, type(e).__name__), "%r left %s" % (e, where))
+        add("loop:exception-escaped:%s:%s" % (where, type(e).__name__), "%r left %s" % (e, where))
     return probs
 
 
@@ -1001,8 +997,14 @@ class C06(Prop):
                         res.count("closed_eof")
                     elif tok == "!":
                         res.count("exception_left_callback")
+                    elif tok.startswith("E:") and tok.endswith(",sf"):
+                        res.count("error_reply_to_peer_for_unsendable_reply")
                     elif tok.startswith("E:"):
                         res.count("error_reply_to_peer")
+                    elif tok.startswith("D:e") and ",sf:" in tok:
+                        res.count("local_error_reply_for_unsendable_request")
+                    elif tok.startswith("D:e") and tok.endswith(":c"):
+                        res.count("handler_raised_on_error_reply")
                     elif tok.startswith("D:e") and ",cw" in tok:
                         res.count("error_reply_to_local_requester")
             if sample and i < 3:
